@@ -72,15 +72,17 @@ func scnGangSparse(name string) *world.Scenario {
 // an ask holding a reservation is bound by the RM itself on another node
 func scnReserveBind(name string) *world.Scenario {
 	s := scnReserve(name)
+	s.Nodes = []world.NodeSpec{{ID: "n1", Cap: world.M(2)}, {ID: "n2", Cap: world.M(2)}, {ID: "n3", Cap: world.M(2)}}
 	s.Asks = []world.AskSpec{
-		{Key: "a1", App: "app1", Res: world.M(2), Create: 1001},
-		{Key: "b1", App: "app2", Res: world.M(2), Create: 1003, BindNode: "n2"},
-		{Key: "b3", App: "app2", Res: world.M(5), Create: 1005}, // never fits: keeps the queue pending
+		{Key: "a1", App: "app1", Res: world.M(1), Create: 1001},
 		{Key: "a2", App: "app1", Res: world.M(1), Create: 1002},
+		{Key: "b1", App: "app2", Res: world.M(2), Create: 1003, BindNode: "n3"}, // fits the queue, not a node: reserved
+		{Key: "b3", App: "app2", Res: world.M(5), Create: 1005},                 // never fits: keeps the queue pending
 	}
 	s.Deny = nil
-	s.Alphabet = []string{"SCHEDULE", "ASK", "ASK_BIND", "RELEASE", "NODE_ADD", "NODE_REMOVE", "CONFIRM"}
-	s.Prefix = []world.Op{op("NODE_ADD", "n1"), op("APP_ADD", "app1"), op("APP_ADD", "app2"), op("ASK", "a1"), op("SCHEDULE"), op("ASK", "b1"), op("SCHEDULE"), op("NODE_ADD", "n2")}
+	s.Alphabet = []string{"SCHEDULE", "ASK", "ASK_BIND", "RELEASE", "NODE_REMOVE", "CONFIRM"}
+	s.Prefix = []world.Op{op("NODE_ADD", "n1"), op("NODE_ADD", "n2"), op("APP_ADD", "app1"), op("APP_ADD", "app2"), op("ASK", "a1"), op("SCHEDULE"), op("ASK", "a2"), op("SCHEDULE"),
+		op("ASK", "b1"), op("SCHEDULE"), op("NODE_ADD", "n3")}
 	return s
 }
 
